@@ -94,11 +94,15 @@ O('unjoin', 1, lambda s, **kw: petl.unjoin(s[0], 'v', **kw), presort=['v'], kind
 O('unjoin-key', 1, lambda s, **kw: petl.unjoin(s[0], 'v', key='k', **kw), presort=['k'], kind='multi')     # presorted: sorted by the key only
 O('sort', 1, lambda s, **kw: petl.sort(s[0], 'k', **kw))
 O('recast', 1, lambda s, **kw: petl.recast(petl.melt(s[0], 'id'), **kw), kind='view')
+# operators that do not refer to the last field of their first input by name: that field may be renamed between passes
+RENAME_SAFE = {'join', 'leftjoin', 'rightjoin', 'outerjoin', 'antijoin', 'lookupjoin', 'duplicates', 'unique', 'conflicts', 'distinct-key-count',
+               'mergeduplicates', 'groupselectfirst', 'groupselectlast', 'groupselectmin', 'groupselectmax', 'sort', 'rowreduce', 'rowgroupmap',
+               'aggregate-len', 'mergesort', 'merge'}
 NO_STRATEGY = {'groupcountdistinctvalues', 'recast'}      # these take no strategy arguments: only config.sort_buffersize applies
 
 RULE = RULE % len(OPS)
 REQUIRED = (['op:' + o for o in OPS] + ['chunked-path-taken', 'in-memory-path-taken', 'presorted', 'tempdir', 'config.sort_buffersize',
-            'history:cache-off-edit-reflected', 'history:cache-on-replayed-after-edit', 'history:cached-sources-not-reopened', 'history:pass-with-failing-source'])
+            'history:cache-off-edit-reflected', 'history:cache-on-replayed-after-edit', 'history:cached-sources-not-reopened', 'history:pass-with-failing-source', 'history:header-edited'])
 
 KEYS = [None, 1, 2, 1.0, 'a', 'b', (1, 2), 3]
 
@@ -155,8 +159,10 @@ def cases(ctx):
                 steps.append(['failing-pass', rng.randrange(len(tables)), rng.randint(1, 5)])
             elif r < 0.75:
                 steps.append(['append', rng.randrange(len(tables)), rng.choice(KEYS)])
-            elif r < 0.87:
+            elif r < 0.84:
                 steps.append(['delete', rng.randrange(len(tables)), rng.randint(0, 5)])
+            elif r < 0.88 and op in RENAME_SAFE:
+                steps.append(['rename', 0])        # the header row is part of the source's current contents too
             else:
                 steps.append(['change', rng.randrange(len(tables)), rng.randint(0, 5), rng.choice(KEYS)])
         steps.append(['pass', 'all'])
@@ -401,6 +407,9 @@ def _judge_history(case, ctx, spec):
             elif st[0] == 'delete':
                 if len(t) > 1:
                     del t[1 + st[2] % (len(t) - 1)]
+            elif st[0] == 'rename':
+                t[0] = list(t[0][:-1]) + [str(t[0][-1]) + '_']
+                ctx.seen('history:header-edited')
             else:
                 if len(t) > 1:
                     # replace the row object (a cache may legitimately hold references to the old row objects)
